@@ -205,10 +205,25 @@ func (p *provider) Stop(ctx context.Context) error {
 }
 
 func (p *provider) filter(obj any) bool {
-	// should never be of a different type. ok if panics
-	rs := obj.(*v1alpha4.RuleSet) // nolint: forcetypeassert
+	rs, ok := toRuleSet(obj)
+	if !ok {
+		return false
+	}
 
 	return rs.Spec.AuthClassName == p.ac
+}
+
+// toRuleSet returns the rule set the given object represents. If the informer missed the deletion
+// of a rule set (e.g. while being disconnected), it delivers a cache.DeletedFinalStateUnknown object,
+// holding the last known state of the deleted rule set, instead of the rule set itself.
+func toRuleSet(obj any) (*v1alpha4.RuleSet, bool) {
+	if tombstone, ok := obj.(cache.DeletedFinalStateUnknown); ok {
+		obj = tombstone.Obj
+	}
+
+	rs, ok := obj.(*v1alpha4.RuleSet)
+
+	return rs, ok
 }
 
 func (p *provider) addRuleSet(obj any) {
@@ -297,8 +312,13 @@ func (p *provider) deleteRuleSet(obj any) {
 
 	p.l.Info().Msg("Rule set deletion received")
 
-	// should never be of a different type. ok if panics
-	rs := obj.(*v1alpha4.RuleSet) // nolint: forcetypeassert
+	rs, ok := toRuleSet(obj)
+	if !ok {
+		p.l.Warn().Msgf("Unexpected object of type %T received. Ignoring it", obj)
+
+		return
+	}
+
 	conf := p.toRuleSetConfiguration(rs)
 
 	if err := p.p.OnDeleted(conf); err != nil {
@@ -373,9 +393,10 @@ func (p *provider) updateStatus(
 
 	modRS.Status.ActiveIn = x.IfThenElse(len(modRS.Status.ActiveIn) == 0, "0/0", modRS.Status.ActiveIn)
 
-	usedBy := strings.Split(modRS.Status.ActiveIn, "/")
-	loadedBy, _ := strconv.Atoi(usedBy[0])
-	matchedBy, _ := strconv.Atoi(usedBy[1])
+	// the status might have been written by someone else, so the expected format cannot be relied on
+	loaded, matched, _ := strings.Cut(modRS.Status.ActiveIn, "/")
+	loadedBy, _ := strconv.Atoi(loaded)
+	matchedBy, _ := strconv.Atoi(matched)
 
 	modRS.Status.ActiveIn = fmt.Sprintf("%d/%d", loadedBy+usageIncrement, matchedBy+matchIncrement)
 
